@@ -125,28 +125,26 @@ def atoi (s : Str) : Nat :=
   the maximal run can succeed. -/
 
 /-- longest prefix matched by `\w+` under `(?i)`: ASCII word bytes and the two runes that
-    case-fold onto ASCII letters, U+017F (`ſ`) and U+212A (Kelvin sign) -/
-def spanWord : Str → Str × Str
-  | [] => ([], [])
-  | a :: r =>
+    case-fold onto ASCII letters, U+017F (`ſ`, bytes C5 BF) and U+212A (Kelvin sign, bytes
+    E2 84 AA).  The first argument counts the continuation bytes of such a rune still to copy. -/
+def spanWordAux : Nat → Str → Str × Str
+  | _, [] => ([], [])
+  | k + 1, a :: r =>
+    let p := spanWordAux k r
+    (a :: p.1, p.2)
+  | 0, a :: r =>
     if isWordB a then
-      let p := spanWord r
+      let p := spanWordAux 0 r
       (a :: p.1, p.2)
-    else
-      match r with
-      | [] => ([], [a])
-      | b :: r' =>
-        if a == 0xC5 && b == 0xBF then
-          let p := spanWord r'
-          (a :: b :: p.1, p.2)
-        else
-          match r' with
-          | [] => ([], [a, b])
-          | c :: r'' =>
-            if a == 0xE2 && b == 0x84 && c == 0xAA then
-              let p := spanWord r''
-              (a :: b :: c :: p.1, p.2)
-            else ([], a :: b :: c :: r'')
+    else if a == 0xC5 && r.head? == some 0xBF then
+      let p := spanWordAux 1 r
+      (a :: p.1, p.2)
+    else if a == 0xE2 && r.take 2 == [0x84, 0xAA] then
+      let p := spanWordAux 2 r
+      (a :: p.1, p.2)
+    else ([], a :: r)
+
+def spanWord (s : Str) : Str × Str := spanWordAux 0 s
 
 /-- `(\w+ )?(\d+)$` on `r`, month group first -/
 def matchMonthYear (day r : Str) : Option (Str × Str × Str) :=
